@@ -438,6 +438,12 @@ def gen_reduce(ctx, tier, rng):
         L = lanes_of(ctx, dt)
         eps = 2.0 ** -23 if dt == 'f32' else 2.0 ** -52
         one, two, nd = reduce_shapes(L, tier)
+        # random n-d shapes (rank 3..5, any axis): the any-axis identification simdReduceAxis_eq_scalar
+        for _ in range(2 if tier == 'quick' else 12):
+            r = rng.randint(3, 5)
+            sh = [rng.randint(1, 3) for _ in range(r)]
+            sh[rng.randrange(r)] = rng.choice([L - 1, L, L + 1, 2 * L + 1])
+            nd.append(sh)
         k = 0
         for shape in one + two + nd:
             dim = len(shape)
